@@ -528,7 +528,8 @@ theorem dirname_root_file (f : Str) (hf : '/' ∉ f) : dirname ('/' :: f) = ['/'
 
 /-- the path entry point is `generate_graph` on what `entryPaths` derives from the two path strings — the root path
     string, the root directory's name and the components of `module_path.relative_to(root_path)` — whenever the options
-    pass the checks of `entryOptionsError` and `exclusions` / `regex_exclusions` are not both absent. So every theorem
+    pass the checks of `entryOptionsError` (since the repair c0bb7ac `a.scanOptions` is always `some _`: `exclusions=()`
+    without `regex_exclusions` means that nothing is excluded, `Pta.C08.no_type_error`). So every theorem
     about `generateGraph` / `scanParsed` (this file, C02, C08, C09, C10) is a theorem about the entry point. -/
 theorem path_entry_eq_generateGraph (rootPath modulePath : Str) (a : EntryArgs) (base root : Str) (mp : List Str)
     (o : ScanOptions) (hopt : entryOptionsError (a.flags true) = none)
